@@ -43,6 +43,14 @@ func main() {
 		for _, l := range prog.AnchorLines() {
 			fmt.Println(l)
 		}
+	case "normalize":
+		// gscheck normalize DIR: run the normalisation pass only and keep the scratch copy (debugging aid)
+		os.Setenv("GS_NORM_KEEP", "1")
+		norm, err := normalize.Run(os.Args[2], "/verif/baseline/funcs.txt", os.TempDir())
+		fmt.Println(norm, err)
+		if norm != nil {
+			fmt.Println("dir:", norm.Dir, norm.Inlined, norm.Kept, norm.Notes)
+		}
 	case "names":
 		// gscheck names [DIR]: the function list used as the normalisation baseline
 		dir := "/repo"
